@@ -35,10 +35,12 @@ def nc(name):
 
 
 class World:
-    def __init__(self, small, signs=None, at=None):
+    def __init__(self, small, signs=None, at=None, theta=None, eps_val=None):
         self.small = small          # True: small-angle side of every precision switch
         self.signs = signs or {}    # decisions for sign conditions: sexp(cond) -> bool
         self.at = at                # a fixed value of TH: every comparison is decided by exact substitution
+        self.theta = theta          # a rotation magnitude (float): each precision switch is on its small side iff theta is
+        self.eps_val = eps_val      # below that switch's own switch-over (mixed worlds between two switch-overs; R-ROUND)
 
 
 class JetEval:
@@ -335,6 +337,12 @@ class JetEval:
                 # quantity q compared with a threshold built from eps (eps, eps_sqrt, ...): q small  <=>  (q < thr)
                 q_small_when = (op in ("<", "<=")) if eps_side == "rhs" else (op in (">", ">="))
                 self.switches.append((n.get("ln") if isinstance(n, dict) else None, q, q_small_when, thr))
+                if self.world.theta is not None:
+                    lead = sp.series(q, TH, 0, 8).removeO()
+                    c_, p_ = sp.expand(lead).as_leading_term(TH).as_coeff_exponent(TH)
+                    ths_ = (float(thr.subs(EPS, self.world.eps_val)) / abs(float(c_))) ** (1.0 / float(p_))
+                    small_here = self.world.theta < ths_
+                    return q_small_when if small_here else (not q_small_when)
                 return q_small_when if self.world.small else (not q_small_when)
             key = sexp(n)
             if key in self.world.signs:
